@@ -41,6 +41,9 @@ def handle (op : String) (j : Json) : R Json := do
     let moments ← listF (asList pNode) j "moments"
     let r := measurementsTerminal 8 moments
     return Json.mkObj [("all", jBool r.1), ("any", jBool r.2)]
+  | "shapes" =>
+    let moments ← listF (asList pNode) j "moments"
+    return jList (fun (r : Key × Nat × Nat) => Json.mkObj [("key", jKey r.1), ("instances", jNat r.2.1), ("width", jNat r.2.2)]) (recordShapes 8 moments)
   | "mkeys" =>
     let n ← pNode (← field j "node")
     match n with
